@@ -93,6 +93,38 @@ def check(run):
                 if int(meta["unreach"]) != 0:
                     bad.append(("hints:unreachable-table-entry", {"output": oi, "unreachable entries": meta["unreach"], "file": lg[:1200]}))
         E.record_failures(run, s, bad, seen)
+    reused_blocks(run, rng, quick, seen)
+
+
+def reused_blocks(run, rng, quick, seen):
+    """an application-built block (write_block(block)) of a parameter set other than 0, written, clear()ed, refilled and written
+    again: both blocks must state the set they were built for (the hints and tick rate the file attributes to them)"""
+    import re
+    sessions, metas = [], []
+    for i in range(60 if quick else 2000):
+        fp = {"maj": 1, "min": 0}
+        bps = [G.gen_bp(rng, simple=False, tps=rng.choice([1000, 10**6]), maxb=50), G.gen_bp(rng, simple=False, tps=rng.choice([1, 10**9]), maxb=50)]
+        for b in bps:
+            b["odh"] = 3
+        k = rng.randrange(2)
+        l1 = "".join(rng.choice("pTUaN") for _ in range(rng.randrange(1, 4)))
+        l2 = "".join(rng.choice("pTUaN") for _ in range(rng.randrange(1, 4)))
+        line = "exp FP:maj=1,min=0 %s %s X:fd:n WBR:%d:%s:%s D" % (G.bp_token(bps[0]), G.bp_token(bps[1]), k, l1, l2)
+        sessions.append((line, refexp.RefExporter(fp, bps), [])); metas.append(k)
+    for s, r, k in zip(sessions, E.run_sessions(run, sessions, need_rd=True), metas):
+        run.case(s[0][:300], True, key=s[0]); run.count("re-used application block")
+        bad = []
+        for oi, lg in r["lean"].items():
+            pis = re.findall(r"B\{pi=(\d+)", lg or "")
+            rd = r["rd"].get(oi, "") or ""
+            if len(pis) != 2 or any(int(p) != k for p in pis):
+                bad.append(("hints:reused-block-parameters", {"why": "both blocks were built for parameter set %d; the file attributes them to %s" % (k, pis),
+                                                              "independent reader": (lg or "")[:800]}))
+            elif re.findall(r"B\{pi=(\d+)", rd) != pis:
+                bad.append(("hints:reused-block-parameters:library-reader", {"library reader": rd[:800]}))
+        if not r["lean"]:
+            bad.append(("hints:reused-block:no-output", {"implementation": (r.get("raw") or "")[:300]}))
+        E.record_failures(run, s, bad, seen)
 
 
 def replay(run, data):
